@@ -140,7 +140,7 @@ func (s *Sim) Block() *world.BlockResult {
 	}
 	s.Now = s.Now.Add(dt)
 	opts := world.BlockOpts{Time: s.Now, ProposerIdx: t.Intn(8)}
-	if s.Cfg.CrashPerMille > 0 && s.N.Height > 1 && t.Chance(uint64(s.Cfg.CrashPerMille), 1000) {
+	if s.Cfg.CrashPerMille > 0 && s.R.Blocks > 0 && t.Chance(uint64(s.Cfg.CrashPerMille), 1000) { // never before the first commit (a real node would re-run InitChain)
 		opts.CrashBeforeCommit = true
 		s.R.Stats.Fault("crash_before_commit")
 		s.R.Trace.Event("crash-before-commit", "h=%d", s.N.Height+1)
